@@ -2,7 +2,7 @@
 import srvprops
 
 PROP = "C05"
-THEOREMS = ["C05_model_smoke", "C05_views_agree_reachable", "C05_index_is_membership", "C05_no_empty_channel", "C05_disconnect_cleans_up", "C05_fresh_channel_defaults", "C05_refused_join_changes_nothing", "C05_invariant_side_condition_tight", "C05_oversize_outbound_is_a_disconnect", "C05_invariant_with_oversize_outbound", "C05_conc_views_agree_at_quiescence", "C05_conc_listed_is_member_always", "C05_conc_disconnected_member_is_being_removed", "C05_conc_released_channel_stays_empty", "C05_conc_invariant_every_schedule", "C05_conc_waiting_join_admitted_to_released_channel_refuted", "C05_conc_waiting_join_refused_now", "C05_conc_late_index_leaves_ghost_member_refuted", "C05_conc_early_index_no_ghost_now", "C05_source_is_the_fixed_model", "C05_source_segment_layout", "C05_source_views_agree_at_quiescence"]
+THEOREMS = ["C05_model_smoke", "C05_views_agree_reachable", "C05_index_is_membership", "C05_no_empty_channel", "C05_disconnect_cleans_up", "C05_fresh_channel_defaults", "C05_refused_join_changes_nothing", "C05_invariant_side_condition_tight", "C05_oversize_outbound_is_a_disconnect", "C05_invariant_with_oversize_outbound", "C05_conc_views_agree_at_quiescence", "C05_conc_listed_is_member_always", "C05_conc_disconnected_member_is_being_removed", "C05_conc_released_channel_stays_empty", "C05_conc_invariant_every_schedule", "C05_conc_waiting_join_admitted_to_released_channel_refuted", "C05_conc_waiting_join_refused_now", "C05_conc_late_index_leaves_ghost_member_refuted", "C05_conc_early_index_no_ghost_now", "C05_source_is_the_fixed_model", "C05_source_segment_layout", "C05_source_views_agree_at_quiescence", "C05_source_refusal_order"]
 
 
 import serverlib as sl
